@@ -5,9 +5,11 @@ import (
 	"crypto/ecdsa"
 	"errors"
 	"fmt"
+	"google.golang.org/grpc"
 	"io"
 	"reflect"
 	"sort"
+	"strings"
 	"time"
 
 	"github.com/google/uuid"
@@ -42,7 +44,11 @@ type Class struct {
 	Cnr string `json:"cnr"`
 	Obj string `json:"obj"`
 	TTL int    `json:"ttl"`
-	As  string `json:"as"` // other | owner
+	As  string `json:"as"` // other | owner | peer (an authenticated container node, no verification header)
+	// request flags that change the shape of the reply: payload_only | raw | range | xrange | payload_only+range | main_only
+	Flags string `json:"flags"`
+	// transport: "" = plain connection, "mtls" = the peer was authenticated by the TLS handshake (peerauth.AuthInfo in the context)
+	Peer string `json:"peer"`
 }
 
 // client operations that must be refused in maintenance (C45); Replicate is deliberately outside.
@@ -155,6 +161,37 @@ func signReq[B neofscrypto.ProtoMessage](key *ecdsa.PrivateKey, req neofscrypto.
 	return vh
 }
 
+// vhFor returns the verification header of the request for the signature class:
+// none / exempt -> no header; forged -> a well-formed header of the CONTAINER OWNER's key whose signatures were made over
+// another request (present but invalid, TTL untouched); otherwise the result of sign().
+func (w *World) vhFor(c Class, sign func() *protosession.RequestVerificationHeader) *protosession.RequestVerificationHeader {
+	switch c.Sig {
+	case "none", "exempt":
+		return nil
+	case "forged":
+		other := &protoobject.HeadRequest{Body: &protoobject.HeadRequest_Body{Address: addrMsg(w.cnrs["pub"], w.cnrs["pub"].remote, "ok")},
+			MetaHeader: &protosession.RequestMetaHeader{Version: version.Current().ProtoMessage(), Ttl: 7}}
+		return signReq(w.ownerKey, other)
+	}
+	return sign()
+}
+
+func (w *World) connFor(c Class) *grpc.ClientConn {
+	if c.Peer == "mtls" {
+		return w.connTLS
+	}
+	return w.conn
+}
+
+func hasFlag(c Class, f string) bool {
+	for _, x := range strings.Split(c.Flags, "+") {
+		if x == f {
+			return true
+		}
+	}
+	return false
+}
+
 type callResult struct {
 	code    int    // NeoFS status code of the reply (0 = OK)
 	grpcErr string // transport-level error, "" if none
@@ -181,16 +218,21 @@ var drivers = map[string]driver{
 		d, o := w.objOf(c)
 		req := &protoobject.GetRequest{MetaHeader: w.metaFor("Get", c)}
 		if c.Body != "missing" {
-			req.Body = &protoobject.GetRequest_Body{Address: addrMsg(d, o, c.Body)}
+			req.Body = &protoobject.GetRequest_Body{Address: addrMsg(d, o, c.Body), Raw: hasFlag(c, "raw"), PayloadOnly: hasFlag(c, "payload_only")}
+			if hasFlag(c, "range") {
+				req.Body.Range = &protoobject.Range{Offset: 2, Length: 5}
+			}
+			if hasFlag(c, "xrange") {
+				first, last := uint64(2), uint64(6)
+				req.Body.ExtendedRange = &protoobject.ExtendedRange{FirstPos: &first, LastPos: &last}
+			}
 		}
 		key, _ := w.signerFor(c.As)
-		if c.Sig != "none" {
-			req.VerifyHeader = signReq(key, req)
-		}
+		req.VerifyHeader = w.vhFor(c, func() *protosession.RequestVerificationHeader { return signReq(key, req) })
 		if c.Sig == "bad" {
 			req.MetaHeader.Ttl++ // signed part changed after signing
 		}
-		st, err := protoobject.NewObjectServiceClient(w.conn).Get(ctx, req)
+		st, err := protoobject.NewObjectServiceClient(w.connFor(c)).Get(ctx, req)
 		if err != nil {
 			return callResult{grpcErr: grpcErrString(err)}
 		}
@@ -212,16 +254,14 @@ var drivers = map[string]driver{
 		d, o := w.objOf(c)
 		req := &protoobject.GetRangeRequest{MetaHeader: w.metaFor("GetRange", c)}
 		if c.Body != "missing" {
-			req.Body = &protoobject.GetRangeRequest_Body{Address: addrMsg(d, o, c.Body), Range: &protoobject.Range{Offset: 2, Length: 5}}
+			req.Body = &protoobject.GetRangeRequest_Body{Address: addrMsg(d, o, c.Body), Range: &protoobject.Range{Offset: 2, Length: 5}, Raw: hasFlag(c, "raw")}
 		}
 		key, _ := w.signerFor(c.As)
-		if c.Sig != "none" {
-			req.VerifyHeader = signReq(key, req)
-		}
+		req.VerifyHeader = w.vhFor(c, func() *protosession.RequestVerificationHeader { return signReq(key, req) })
 		if c.Sig == "bad" {
 			req.MetaHeader.Ttl++
 		}
-		st, err := protoobject.NewObjectServiceClient(w.conn).GetRange(ctx, req)
+		st, err := protoobject.NewObjectServiceClient(w.connFor(c)).GetRange(ctx, req)
 		if err != nil {
 			return callResult{grpcErr: grpcErrString(err)}
 		}
@@ -243,16 +283,14 @@ var drivers = map[string]driver{
 		d, o := w.objOf(c)
 		req := &protoobject.HeadRequest{MetaHeader: w.metaFor("Head", c)}
 		if c.Body != "missing" {
-			req.Body = &protoobject.HeadRequest_Body{Address: addrMsg(d, o, c.Body)}
+			req.Body = &protoobject.HeadRequest_Body{Address: addrMsg(d, o, c.Body), Raw: hasFlag(c, "raw"), MainOnly: hasFlag(c, "main_only")}
 		}
 		key, _ := w.signerFor(c.As)
-		if c.Sig != "none" {
-			req.VerifyHeader = signReq(key, req)
-		}
+		req.VerifyHeader = w.vhFor(c, func() *protosession.RequestVerificationHeader { return signReq(key, req) })
 		if c.Sig == "bad" {
 			req.MetaHeader.Ttl++
 		}
-		r, err := protoobject.NewObjectServiceClient(w.conn).Head(ctx, req)
+		r, err := protoobject.NewObjectServiceClient(w.connFor(c)).Head(ctx, req)
 		if err != nil {
 			return callResult{grpcErr: grpcErrString(err)}
 		}
@@ -273,13 +311,11 @@ var drivers = map[string]driver{
 			req.Body = &protoobject.DeleteRequest_Body{Address: addrMsg(d, o, c.Body)}
 		}
 		key, _ := w.signerFor(c.As)
-		if c.Sig != "none" {
-			req.VerifyHeader = signReq(key, req)
-		}
+		req.VerifyHeader = w.vhFor(c, func() *protosession.RequestVerificationHeader { return signReq(key, req) })
 		if c.Sig == "bad" {
 			req.MetaHeader.Ttl++
 		}
-		r, err := protoobject.NewObjectServiceClient(w.conn).Delete(ctx, req)
+		r, err := protoobject.NewObjectServiceClient(w.connFor(c)).Delete(ctx, req)
 		if err != nil {
 			return callResult{grpcErr: grpcErrString(err)}
 		}
@@ -295,13 +331,11 @@ var drivers = map[string]driver{
 			}
 		}
 		key, _ := w.signerFor(c.As)
-		if c.Sig != "none" {
-			req.VerifyHeader = signReq(key, req)
-		}
+		req.VerifyHeader = w.vhFor(c, func() *protosession.RequestVerificationHeader { return signReq(key, req) })
 		if c.Sig == "bad" {
 			req.MetaHeader.Ttl++
 		}
-		r, err := protoobject.NewObjectServiceClient(w.conn).SearchV2(ctx, req)
+		r, err := protoobject.NewObjectServiceClient(w.connFor(c)).SearchV2(ctx, req)
 		if err != nil {
 			return callResult{grpcErr: grpcErrString(err)}
 		}
@@ -315,7 +349,7 @@ var drivers = map[string]driver{
 		key, signer := w.signerFor(c.As)
 		obj := w.newObject(d, signer, "put payload "+uuid.NewString(), secretKey, secretVal)
 		mo := obj.ProtoMessage()
-		st, err := protoobject.NewObjectServiceClient(w.conn).Put(ctx)
+		st, err := protoobject.NewObjectServiceClient(w.connFor(c)).Put(ctx)
 		if err != nil {
 			return callResult{grpcErr: grpcErrString(err)}
 		}
@@ -327,9 +361,7 @@ var drivers = map[string]driver{
 			}
 			init.Body = &protoobject.PutRequest_Body{ObjectPart: &protoobject.PutRequest_Body_Init_{Init: in}}
 		}
-		if c.Sig != "none" {
-			init.VerifyHeader = signReq(key, init)
-		}
+		init.VerifyHeader = w.vhFor(c, func() *protosession.RequestVerificationHeader { return signReq(key, init) })
 		if c.Sig == "bad" {
 			init.MetaHeader.Ttl++
 		}
@@ -362,10 +394,8 @@ var drivers = map[string]driver{
 		d := w.cnrs[c.Cnr]
 		req := &protoobject.SearchRequest{MetaHeader: w.metaFor("SearchV2", c), Body: &protoobject.SearchRequest_Body{ContainerId: d.id.ProtoMessage(), Version: 1}}
 		key, _ := w.signerFor(c.As)
-		if c.Sig != "none" {
-			req.VerifyHeader = signReq(key, req)
-		}
-		st, err := protoobject.NewObjectServiceClient(w.conn).Search(ctx, req)
+		req.VerifyHeader = w.vhFor(c, func() *protosession.RequestVerificationHeader { return signReq(key, req) })
+		st, err := protoobject.NewObjectServiceClient(w.connFor(c)).Search(ctx, req)
 		if err != nil {
 			return callResult{grpcErr: grpcErrString(err)}
 		}
@@ -383,10 +413,8 @@ var drivers = map[string]driver{
 		req := &protoobject.GetRangeHashRequest{MetaHeader: w.metaFor("GetRange", c), Body: &protoobject.GetRangeHashRequest_Body{Address: addrMsg(d, o, "ok"),
 			Ranges: []*protoobject.Range{{Offset: 0, Length: 1}}}}
 		key, _ := w.signerFor(c.As)
-		if c.Sig != "none" {
-			req.VerifyHeader = signReq(key, req)
-		}
-		_, err := protoobject.NewObjectServiceClient(w.conn).GetRangeHash(ctx, req)
+		req.VerifyHeader = w.vhFor(c, func() *protosession.RequestVerificationHeader { return signReq(key, req) })
+		_, err := protoobject.NewObjectServiceClient(w.connFor(c)).GetRangeHash(ctx, req)
 		return callResult{grpcErr: grpcErrString(err)}
 	},
 }
